@@ -2,6 +2,7 @@
 // (NegaRing, Base2k, ...) for sizes TLC cannot reach. Shares no code with the library.
 #include <stdint.h>
 #include <string.h>
+#include <stdlib.h>
 typedef __int128 i128;
 
 // negacyclic product in Z[X]/(X^n+1), exact in 128 bits (caller guarantees no overflow)
@@ -20,10 +21,28 @@ void rm_negacyclic_mul_i128(uint64_t n, i128* res, const int64_t* a, const int64
 void rm_product_maxdiff(uint64_t n, const int64_t* a, const int64_t* b, const int64_t* res, uint64_t* out) {
   unsigned __int128 best = 0;
   uint64_t besti = 0;
+  /* b with few non-zero coefficients: the same sum, over the support of b only */
+  uint64_t nz = 0;
+  for (uint64_t j = 0; j < n; ++j) nz += (b[j] != 0);
+  uint64_t* supp = 0;
+  if (nz * 8 < n) {
+    supp = (uint64_t*)malloc((nz + 1) * sizeof(uint64_t));
+    uint64_t c = 0;
+    for (uint64_t j = 0; j < n; ++j)
+      if (b[j] != 0) supp[c++] = j;
+  }
   for (uint64_t k = 0; k < n; ++k) {
     i128 acc = 0;
-    for (uint64_t i = 0; i <= k; ++i) acc += (i128)a[i] * b[k - i];
-    for (uint64_t i = k + 1; i < n; ++i) acc -= (i128)a[i] * b[n + k - i];
+    if (supp) {
+      for (uint64_t c = 0; c < nz; ++c) {
+        uint64_t j = supp[c];
+        if (j <= k) acc += (i128)a[k - j] * b[j];
+        else acc -= (i128)a[n + k - j] * b[j];
+      }
+    } else {
+      for (uint64_t i = 0; i <= k; ++i) acc += (i128)a[i] * b[k - i];
+      for (uint64_t i = k + 1; i < n; ++i) acc -= (i128)a[i] * b[n + k - i];
+    }
     i128 d = (i128)res[k] - acc;
     unsigned __int128 ad = d < 0 ? (unsigned __int128)(-d) : (unsigned __int128)d;
     if (ad > best) {
@@ -31,6 +50,7 @@ void rm_product_maxdiff(uint64_t n, const int64_t* a, const int64_t* b, const in
       besti = k;
     }
   }
+  free(supp);
   out[0] = (uint64_t)best;
   out[1] = (uint64_t)(best >> 64);
   out[2] = besti;
